@@ -1,6 +1,8 @@
 import TFV.Properties.EA
+import TFV.Properties.Src.Engine
 #print axioms TFV.EA.C02_best_monotone
 #print axioms TFV.EA.C02_elite_present
 #print axioms TFV.EA.C02_slot_consistent
 #print axioms TFV.EA.C02_slot_monotone
 #print axioms TFV.EA.C02_record_dominates
+#print axioms TFV.SrcTie.C02_src_update_monotone
